@@ -205,7 +205,7 @@ fn dense_eval<F: PrimeField>(rep: &mut Report, rng: &mut Rng, args: &Args, fname
         rep.require(c);
     }
     let max_nv = args.pick(8, 12);
-    let reps = args.pick(60, 150);
+    let reps = args.pick(150, 300);
     for nv in 0..=max_nv {
         let n = 1usize << nv;
         let mut tables: Vec<(Vec<F>, &'static str)> = vec![(vec![F::zero(); n], "all zero")];
@@ -336,7 +336,7 @@ fn dense_relabel_concat<F: PrimeField>(rep: &mut Report, rng: &mut Rng, args: &A
         rep.exhaustive(&format!("{fname}: every valid relabel window (a,b,k) for {nv} variables (dense)"));
     }
     // concat
-    for _ in 0..args.pick(2000, 20_000) {
+    for _ in 0..args.pick(8000, 40_000) {
         let cnt = 1 + rng.gen_range(0..5);
         let nvs: Vec<usize> = (0..cnt).map(|_| rng.gen_range(0..6)).collect();
         let tabs: Vec<Vec<F>> = nvs.iter().map(|nv| gen_table::<F>(rng, *nv).0).collect();
@@ -399,7 +399,7 @@ fn dense_ops<F: PrimeField>(rep: &mut Report, rng: &mut Rng, args: &Args, fname:
         rep.require(c);
     }
     let max_nv = args.pick(7, 10);
-    for _ in 0..args.pick(12_000, 120_000) / shards {
+    for _ in 0..args.pick(60_000, 240_000) / shards {
         let nv = rng.gen_range(0..=max_nv);
         let a = gen_opnd::<F>(rng, nv);
         let mut b = gen_opnd::<F>(rng, nv);
@@ -494,7 +494,7 @@ fn sparse_eval<F: PrimeField>(rep: &mut Report, rng: &mut Rng, args: &Args, fnam
         rep.require(c);
     }
     let max_nv = args.pick(8, 12);
-    let reps = args.pick(60, 150);
+    let reps = args.pick(150, 300);
     for nv in 0..=max_nv {
         let n = 1usize << nv;
         let mut tables: Vec<(Vec<F>, &'static str)> = vec![(vec![F::zero(); n], "all zero")];
@@ -650,7 +650,7 @@ fn sparse_ops<F: PrimeField>(rep: &mut Report, rng: &mut Rng, args: &Args, fname
         rep.require(c);
     }
     let max_nv = args.pick(7, 10);
-    for _ in 0..args.pick(12_000, 120_000) / shards {
+    for _ in 0..args.pick(60_000, 240_000) / shards {
         let nv = rng.gen_range(0..=max_nv);
         let a = gen_opnd::<F>(rng, nv);
         let mut b = gen_opnd::<F>(rng, nv);
@@ -785,7 +785,7 @@ fn mv_terms<F: PrimeField>(rep: &mut Report, rng: &mut Rng, args: &Args, fname: 
     for c in ["term: repeated variable", "term: zero power", "term: unordered variables", "term: constant"] {
         rep.require(c);
     }
-    for _ in 0..args.pick(30_000, 300_000) / shards {
+    for _ in 0..args.pick(100_000, 400_000) / shards {
         let nv = rng.gen_range(0..7);
         let (raw, rclass) = gen_raw_term(rng, nv);
         let e = exps_of(&raw, nv);
@@ -964,7 +964,7 @@ fn mv_poly<F: PrimeField>(rep: &mut Report, rng: &mut Rng, args: &Args, fname: &
     for c in ["term list: duplicate monomials", "term list: zero coefficient", "term list: duplicates cancel to zero", "term list: empty", "poly ops: q = -p", "poly ops: shared monomials"] {
         rep.require(c);
     }
-    for _ in 0..args.pick(20_000, 200_000) / shards {
+    for _ in 0..args.pick(80_000, 300_000) / shards {
         let nv = rng.gen_range(0..6);
         let raw = gen_mv::<F>(rng, nv);
         let model = model_of(&raw.iter().map(|(c, t)| (*c, exps_of(t, nv))).collect::<Vec<_>>());
